@@ -147,6 +147,27 @@ func runSeq(run *hx.Run, seq int, ops []dbx.Op, gen func() (dbx.Op, bool), repli
 			}
 			or.Ops = done
 			or.Observe(i, op, res, pre, post, db)
+			if replicas && res != "panic" {
+				// every kind of query, after every command (keeps any read-side cache of this replica warm); one time in
+				// four the answers are compared with those of a replica freshly restored from this one's snapshot
+				ans, pa := dbx.LookupAll(db, post, lookKeys, lookAddrs)
+				if pa {
+					run.Count("c03:query_panics") // e.g. the context query on a regions record that is not a region specification: the same on every replica
+				}
+				if (seq+i)%4 == 0 {
+					if data, p := dbx.Snapshot(db); !p {
+						if fr, p2 := dbx.Restore(data); !p2 {
+							fa, pf := dbx.LookupAll(fr, post, lookKeys, lookAddrs)
+							run.Count("c03:lookups_compared_with_fresh_replica")
+							if pf != pa {
+								c03fail(run, seq, i, done, "lookup-differs-from-fresh-replica", fmt.Sprintf("queries crash on one of (replica, replica freshly restored from its snapshot) only: %v vs %v", pa, pf))
+							} else if fa != ans {
+								c03fail(run, seq, i, done, "lookup-differs-from-fresh-replica", "a replica that has been answering queries all along answers differently from one freshly restored from its snapshot: "+firstDiff(ans, fa))
+							}
+						}
+					}
+				}
+			}
 			if b != nil {
 				rb := dbx.Apply(b, op.ToUpdate())
 				if rb != res {
@@ -267,6 +288,21 @@ func probeNonUTF8(run *hx.Run) {
 				Ops: []interface{}{map[string]interface{}{"op": "kv", "key_bytes": []byte(key), "value": "v", "inst": 1, "fin": true}, "snapshot+restore", map[string]interface{}{"op": "kv", "key_bytes": []byte(key), "value": "w", "inst": 2}}})
 		}
 	}
+}
+
+var lookKeys = []string{"k1", "k2", "election-key", "launched-flag", "bootstrapped-flag", "regions-key", "deployment-id", "nokey"}
+var lookAddrs = []string{"a1", "a2", "a3", "a4", "a5", "a6", "a7", "a8"}
+
+func firstDiff(a, b string) string {
+	i := 0
+	for i < len(a) && i < len(b) && a[i] == b[i] {
+		i++
+	}
+	lo := i - 40
+	if lo < 0 {
+		lo = 0
+	}
+	return fmt.Sprintf("at byte %d: %q vs %q", i, a[lo:min(len(a), i+60)], b[lo:min(len(b), i+60)])
 }
 
 func min(a, b int) int {
